@@ -80,6 +80,9 @@ BATCH_PLAIN = [
     "sdk/src/resource/resource_detector.cc",
     "sdk/src/version/version.cc",
 ]
+# the scheduler shim passes a baton between pooled OS threads at almost every step: fake-stack
+# allocation (stack-use-after-return detection) would dominate the run time there
+SCHED_ASAN = "detect_stack_use_after_return=0"
 SCHED_ASSUMPTIONS = [
     "the schedule-controlled engine explores interleavings of synchronisation operations under sequential consistency; "
     "weak-memory reorderings are not explored",
